@@ -53,6 +53,10 @@ class Exec(ExprMixin, AccessMixin, CallMixin, StmtMixin, SpecMixin, HeapMixin, O
         st.assume(z3.Or(term == 0, *[st.classof(term) == c.uid for c in subs]))
       if t in ('list', 'tuple'):
         st.assume(z3.Or(term == 0, self.list_len(st, VRef(t, term)) >= 0))
+      if t in ('list', 'tuple', 'dict', 'set'):
+        # a container handed in as a parameter is an ordinary object: not the hidden key list of some dict and not a
+        # container owned by a record slot
+        st.axiom(z3.Function('container_tag', z3.IntSort(), z3.IntSort())(term) == 0)
       return v
     term = z3.Const('in_' + name, kind.sort())
     v = self.wrap(st, term, kind)
@@ -250,7 +254,22 @@ class Exec(ExprMixin, AccessMixin, CallMixin, StmtMixin, SpecMixin, HeapMixin, O
     old = st.fork()
     self.old_state = old
     body_state = st.fork()
-    results = self.call_function(body_state, finfo, [args_env[p] for p in params if p in args_env and p not in
+    if finfo.is_contextmanager and con.hooks.get('with_body'):
+      # a context-manager generator is verified together with a harness body supplied by the contract
+      from pyvc.engine3 import VCtxMgr
+      cm = VCtxMgr(finfo, [args_env[p] for p in params], {}, pre_made.get('$closure'))
+      body_state.env = dict(env)
+      holder = {}
+      def run_body(s, _h=holder):
+        return con.hooks['with_body'](self, s, s.env.get('$cm_target'))
+      import ast as _ast
+      tgt = _ast.Name(id='$cm_target', ctx=_ast.Store())
+      rs = self.enter_cm(body_state, cm, tgt, run_body)
+      results = [(s, Raised(c[1]) if (c is not None and c[0] == 'raise') else NONE) for s, c in rs]
+    elif False:
+      results = []
+    else:
+     results = self.call_function(body_state, finfo, [args_env[p] for p in params if p in args_env and p not in
                                                    ([a.vararg.arg] if a.vararg else []) + ([a.kwarg.arg] if a.kwarg else [])],
                                  {}, closure=pre_made.get('$closure')) \
         if not (a.vararg or a.kwarg) else self.run_with_star(body_state, finfo, args_env, pre_made)
